@@ -19,6 +19,8 @@ func init() {
 	vfHarnesses["C05_sim"] = vfH_C05_sim
 	vfHarnesses["C06_deadline"] = vfH_C06_deadline
 	vfHarnesses["C06_sim"] = vfH_C06_sim
+	vfHarnesses["C05_sim64"] = vfH_C05_sim64
+	vfHarnesses["C06_sim64"] = vfH_C06_sim64
 	vfHarnesses["C06_update"] = vfH_C06_update
 }
 
@@ -79,11 +81,18 @@ func vfH_C05_deadline() {
 // holder unlocks at a chosen tick (the waiter is granted and must never get
 // TIMEOUT afterwards) / the holder unlocks after the timeout (the request must
 // not be granted any more).
-func vfH_C05_sim() {
+// vfSimMax: largest T / E of the tick-by-tick simulations (12 in the quick tier, 64 in *_sim64:
+// through all re-check rounds of the second wheel and into the long table).
+var vfSimMax = 12
+
+func vfH_C05_sim()   { vfSimMax = 12; vfC05Sim() }
+func vfH_C05_sim64() { vfSimMax = 64; vfC05Sim() }
+
+func vfC05Sim() {
 	env := vfNewEnv(2)
 	key := vfKey(1)
 	vfTakeHold(env, key, 1, 0, 0xffff, 0x4000)
-	T := vfRange("T", 1, 12)
+	T := vfRange("T", 1, vfSimMax)
 	c := env.newCmd(protocol.COMMAND_LOCK, key, vfLockId(2))
 	c.Timeout = uint16(T)
 	c.Expried, c.ExpriedFlag = 0xffff, 0x4200
@@ -160,10 +169,13 @@ func vfH_C06_deadline() {
 // C06_sim: E in 1..12; the hold ends exactly at tick E+1 with one EXPRIED to the
 // holder, its capacity is freed and the queued request is served; a re-lock at a
 // chosen tick restarts the period; an unlimited hold never ends.
-func vfH_C06_sim() {
+func vfH_C06_sim()   { vfSimMax = 12; vfC06Sim() }
+func vfH_C06_sim64() { vfSimMax = 64; vfC06Sim() }
+
+func vfC06Sim() {
 	env := vfNewEnv(2)
 	key := vfKey(1)
-	E := vfRange("E", 1, 12)
+	E := vfRange("E", 1, vfSimMax)
 	variant := vfChoice("variant", 3) // 0 plain, 1 re-lock restarts, 2 unlimited
 	c := env.newCmd(protocol.COMMAND_LOCK, key, vfLockId(1))
 	c.Count, c.Rcount, c.Expried, c.ExpriedFlag = 0, 5, uint16(E), 0x0200
